@@ -35,6 +35,27 @@ func Parse(input string) ([]node.Type, *Error) {
 	return rn, err
 }
 
+// maxNesting limits how deep grammar rules can nest, the parser being recursive
+// a pathologically nested input would exhaust the stack otherwise.
+const maxNesting = 5000
+
+// nested guards a recursive rule with the nesting limit.
+func nested(p c.Parser) c.Parser {
+	return func(input c.RollbackLexer) ([]c.Node, *Error) {
+		l, ok := input.(*lexer.TLexer)
+		if !ok {
+			return p(input)
+		}
+		if l.Depth >= maxNesting {
+			return nil, c.NewError("Parser: nesting too deep", input.From(), input.To())
+		}
+		l.Depth++
+		defer func() { l.Depth-- }()
+
+		return p(input)
+	}
+}
+
 func acceptTerm(tokType token.Kind, msg string) c.Parser {
 	tokenWrap := tokenWrapper{}
 	return c.Accept(func(tok c.Token) bool { return tok.(token.Type).Type == tokType }, msg, tokenWrap)
@@ -97,7 +118,7 @@ func arrayLit(input c.RollbackLexer) ([]c.Node, *Error) {
 }
 
 func atom(input c.RollbackLexer) ([]c.Node, *Error) {
-	return c.Choose(
+	return nested(c.Choose(
 		c.Conditional{Gate: c.Assert(c.And(parameters, acceptToken("->"))), OnSuccess: function},
 		c.Conditional{Gate: c.Assert(c.And(varName, acceptToken("("))), OnSuccess: call},
 		c.Conditional{Gate: floatLit, OnSuccess: c.Ok()},
@@ -107,7 +128,7 @@ func atom(input c.RollbackLexer) ([]c.Node, *Error) {
 		c.Conditional{Gate: stringLit, OnSuccess: c.Ok()},
 		c.Conditional{Gate: c.Assert(acceptToken("[")), OnSuccess: arrayLit},
 		c.Conditional{Gate: c.Assert(acceptToken("(")), OnSuccess: paren},
-		c.Conditional{Gate: c.Ok(), OnSuccess: varName})(input)
+		c.Conditional{Gate: c.Ok(), OnSuccess: varName}))(input)
 }
 
 func index(input c.RollbackLexer) ([]c.Node, *Error) {
@@ -180,14 +201,14 @@ func assignment(input c.RollbackLexer) ([]c.Node, *Error) {
 }
 
 func statement(input c.RollbackLexer) ([]c.Node, *Error) {
-	return c.Choose(
+	return nested(c.Choose(
 		c.Conditional{Gate: c.Assert(acceptToken("if")), OnSuccess: conditional},
 		c.Conditional{Gate: c.Assert(acceptToken("while")), OnSuccess: whileLoop},
 		c.Conditional{Gate: c.Assert(acceptToken("for")), OnSuccess: forLoop},
 		c.Conditional{Gate: c.Assert(acceptToken("return")), OnSuccess: returning},
 		c.Conditional{Gate: c.Assert(acceptToken("yield")), OnSuccess: yield},
 		c.Conditional{Gate: c.Assert(c.And(varName, acceptToken("="))), OnSuccess: assignment},
-		c.Conditional{Gate: c.Ok(), OnSuccess: expression})(input)
+		c.Conditional{Gate: c.Ok(), OnSuccess: expression}))(input)
 }
 
 func conditional(input c.RollbackLexer) ([]c.Node, *Error) {
